@@ -117,7 +117,7 @@ func cmdCheck(eng *Engine, args []string, tier string, keep, verbose bool, start
 	assumptions := map[string]bool{}
 	calleeHow := map[string]int{}
 	var abstractions []string
-	var knownPrinted []string
+	knownPrinted := []string{}
 	var lines []string
 	usedTrusted := map[string]bool{}
 	emitViolation := func(name string, rf *replayFile, noInput bool) {
@@ -216,7 +216,8 @@ func cmdCheck(eng *Engine, args []string, tier string, keep, verbose bool, start
 		trustedBase = append(trustedBase, fmt.Sprintf("call sites handled as [%s]: %d functions", k, calleeHow[k]))
 	}
 	sort.Strings(abstractions)
-	var assumptionList []string
+	assumptionList := []string{}
+	assumptionList = append(assumptionList, eng.cs.Notes...)
 	for a := range assumptions {
 		assumptionList = append(assumptionList, a)
 	}
